@@ -1,23 +1,44 @@
 #!/bin/bash
-# tools/harmless_eval.sh <ws> <Cxx:hN> ...: in the isolated workspace /work/<ws> (tools/mkws.sh), apply each
-# behaviour-preserving change /tmp/seed/outh-Cxx/hN.diff to the workspace's repo worktree, run the two baseline
-# suites and then EVERY quick check, print one summary line per patch, revert.
+# tools/harmless_eval.sh <ws> <Cxx:hN> ...: in an isolated workspace (<ws> = a name under /work made by tools/mkws.sh, or
+# an absolute directory made by tools/mksubws.sh), apply each behaviour-preserving change seeded-harmless/Cxx/hN.diff
+# to the workspace's repository, run the two baseline suites and then the quick checks, print one summary line per
+# patch (+ one line per check that did not exit 0), revert.
+#   HE_SELECT=1 : run only the checks tools/harmless_select.py names for the diff (own property, properties that
+#                 alarmed for it in an earlier run, properties anchored in a file it touches); default: all 20.
+#   HE_PROPS="Cxx .." : run exactly these checks.
+#   HE_OUT=dir  : where the replay files and the full output of every run are kept (default /tmp/seed/heval).
+#   HE_NOTESTS=1: skip the two baseline suites (re-runs after an oracle repair).
 WS=$1; shift
-W=/work/$WS
+case "$WS" in /*) W=$WS;; *) W=/work/$WS;; esac
+HERE="$(cd "$(dirname "$0")/.." && pwd)"
+OUT=${HE_OUT:-/tmp/seed/heval}
 export CARGO_NET_OFFLINE=true
 for item in "$@"; do
   id=${item%%:*}; h=${item##*:}
-  p=/tmp/seed/outh-$id/$h.diff
+  p=$HERE/seeded-harmless/$id/$h.diff
+  [ -f "$p" ] || p=/tmp/seed/outh-$id/$h.diff
   [ -f "$p" ] || { echo "$item: no patch"; continue; }
   git -C $W/repo checkout -- . ; git -C $W/repo clean -fdq -e target
   if ! git -C $W/repo apply "$p" 2>/dev/null; then echo "$item: PATCH DOES NOT APPLY"; continue; fi
-  t1=$(cd $W/repo && cargo test --workspace --no-fail-fast --offline 2>&1 | grep -E "^test result|^error" | head -1 | cut -c1-60)
-  t2=$(cd $W/repo && cargo test --offline --features "bmp fsm mrt serde" 2>&1 | grep -E "^test result|^error" | head -1 | cut -c1-60)
-  res=$(cd $W/verif && tools/run_all.sh quick 2>&1)
+  if [ -z "$HE_NOTESTS" ]; then
+    t1=$(cd $W/repo && cargo test --workspace --no-fail-fast --offline 2>&1 | grep -E "^test result|^error" | head -1 | cut -c1-60)
+    t2=$(cd $W/repo && cargo test --offline --features "bmp fsm mrt serde" 2>&1 | grep -E "^test result|^error" | head -1 | cut -c1-60)
+  else
+    t1=skipped; t2=skipped
+  fi
+  rm -rf $W/verif/replay $OUT/$item/checks
+  if [ -n "$HE_SELECT$HE_PROPS" ]; then
+    sel=${HE_PROPS:-$(python3 $HERE/tools/harmless_select.py $id $h)}
+    res=$(cd $W/verif && RUN_ALL_LOG=$OUT/$item/checks tools/run_all.sh quick $sel 2>&1)
+    note=" checks: $sel"
+  else
+    res=$(cd $W/verif && RUN_ALL_LOG=$OUT/$item/checks tools/run_all.sh quick 2>&1)
+    note=""
+  fi
   bad=$(echo "$res" | grep -v "rc=0" | cut -c1-220)
-  echo "== $item tests: [$t1] [$t2] alarms: $(echo "$res" | grep -vc 'rc=0')"
+  echo "== $item tests: [$t1] [$t2] alarms: $(echo "$res" | grep -vc 'rc=0')$note"
   [ -n "$bad" ] && echo "$bad"
-  mkdir -p /tmp/seed/heval/$item; cp -r $W/verif/replay /tmp/seed/heval/$item/ 2>/dev/null
-  echo "$res" > /tmp/seed/heval/$item/run_all.txt
+  mkdir -p $OUT/$item; rm -rf $OUT/$item/replay; cp -r $W/verif/replay $OUT/$item/ 2>/dev/null
+  echo "$res" > $OUT/$item/run_all.txt
 done
-git -C $W/repo checkout -- .
+git -C $W/repo checkout -- . ; git -C $W/repo clean -fdq -e target
